@@ -6,6 +6,7 @@ import itertools
 import string
 import types
 from collections.abc import Callable, Iterator
+from copy import copy
 from typing import Any
 
 from .. import peg as g
@@ -147,7 +148,10 @@ class PythonParserGenerator(IndentPrintMixin, NodeWalker):
             self.print(self.walk(rule.exp))
 
     def walk_BasedRule(self, rule: g.BasedRule):
-        self.walk_Rule(rule)
+        # NOTE: a based rule parses its base rule's right-hand side first
+        based = copy(rule)
+        based.exp = rule.rhs
+        self.walk_Rule(based)
 
     def walk_Call(self, call: g.Call):
         name = safe_name(call.name)
